@@ -405,6 +405,9 @@ def run(chk, repo, tier):
     from .c07 import product_shape_rule
     product_shape_rule(chk, repo, 'C08-f')
     defined_attribute_rule(chk, repo, 'C08-f')
+    # ... nor is a compatible pair refused for its sampling: equal (row, col) pixel scales multiply
+    from .c07 import pixelscale_guard_rule as _pixelscale_guard_rule
+    _pixelscale_guard_rule(chk, repo, 'C08-f')
     # ---------------------------------------------------------------- C08-e
     allowed = {'wavefront.Wavefront.__init__': 'validated by the setter',
                'wavefront.Wavefront.ptype#setter': 'the validating setter',
@@ -420,6 +423,31 @@ def run(chk, repo, tier):
                 chk.ob('C08-e', 'E-who-writes', key, f'store to .{node.attr}', ok,
                        allowed.get(key, f'`{seg(f, node)}` writes a plane type outside the validated sites'),
                        f.loc(node))
+    # ... and the setter that is allowed to write does validate: a wavefront is `none`, `pupil` or `image` (the rows of the
+    # table); `tilt` / `transform` are plane types only and leave a wavefront that no plane can be applied to
+    wcls = repo.cls('wavefront.Wavefront')
+    wset = wcls.find_setter('ptype')
+    if wset is not None:
+        _, spaths, _ = analyse(repo, wset)
+        from ..rules import literals as _lits
+        def _three(c):
+            a_ = c.single_atom() if isinstance(c, Poly) else None
+            if a_ is None or not is_app(a_, ('in', 'notin', 'eq', 'ne', 'or', 'and', 'not')):
+                return set()
+            return {x.value[1] for v in [Poly.atom(a_)] for y in nf.value_atoms(v) if y[0] == 'val' for x in [y[1]]
+                    if isinstance(x, Const) and isinstance(x.value, tuple) and x.value and x.value[0] == 'ptype'} | \
+                   {k for k in ('none', 'pupil', 'image', 'tilt', 'transform') if f"('ptype', '{k}')" in fmt(c)}
+        refused = [p for p in spaths if p.status == 'raise' and p.exc == 'TypeError']
+        stores = [p for p in spaths if p.status != 'raise']
+        named = set()
+        for p in stores:
+            for c, pol in _lits(p.conds):
+                named |= _three(c)
+        okv = bool(refused) and bool(stores) and {'none', 'pupil', 'image'} <= named and not ({'tilt', 'transform'} & named)
+        chk.ob('C08-e', 'D-guard', wset.key, 'the wavefront type setter admits none / pupil / image and refuses everything else with TypeError',
+               okv if (refused or stores) else None,
+               '' if okv else ('no path raises TypeError: any plane type is stored' if not refused else
+                               f'the stored type is tested against {sorted(named)}'), wset.loc())
     # a new wavefront has the type it is given - on every path of the constructor, whatever its other arguments are: every
     # product is built through the constructor (Wavefront.empty), so a type derived from, say, the focal length rewrites the
     # result of the multiplication table
